@@ -47,7 +47,7 @@ def ctx() -> "Ctx":
 
 
 def _is_sym(x):
-    return isinstance(x, (SInt, SReal, SBool))
+    return isinstance(x, (SInt, SReal, SBool, SEnum))
 
 
 # ---------------------------------------------------------------------------
@@ -649,6 +649,88 @@ class SReal:
         return "<SReal>"
 
 
+class SEnum:
+    """symbolic member of an Enum class: z3 Int index into list(cls)"""
+    __slots__ = ("t", "cls", "members")
+
+    def __init__(self, t, cls):
+        self.t = t
+        self.cls = cls
+        self.members = list(cls)
+
+    def _idx(self, o):
+        if isinstance(o, SEnum):
+            return o.t if o.cls is self.cls else None
+        if isinstance(o, self.cls):
+            return self.members.index(o)
+        return None
+
+    def _val(self):
+        """integer value term (IntEnum ordering)"""
+        vals = [m.value for m in self.members]
+        if vals == list(range(len(vals))):
+            return self.t
+        t = z3.IntVal(vals[-1])
+        for i in range(len(vals) - 2, -1, -1):
+            t = z3.If(self.t == i, vals[i], t)
+        return t
+
+    @staticmethod
+    def _v(o):
+        if isinstance(o, SEnum):
+            return o._val()
+        if isinstance(o, int):
+            return int(o)
+        return None
+
+    def __eq__(self, o):
+        i = self._idx(o)
+        if i is None:
+            return False
+        return _mk_bool(_z(self.t) == _z(i))
+
+    def __ne__(self, o):
+        return b_not(self.__eq__(o))
+
+    def _ord(self, o, op, swap=False):
+        v = SEnum._v(o)
+        if v is None:
+            return NotImplemented
+        a, b = (v, self._val()) if swap else (self._val(), v)
+        return _mk_bool(_rel(op, a, b))
+
+    def __lt__(self, o):
+        return self._ord(o, "<")
+
+    def __le__(self, o):
+        return self._ord(o, "<=")
+
+    def __gt__(self, o):
+        return self._ord(o, "<", swap=True)
+
+    def __ge__(self, o):
+        return self._ord(o, "<=", swap=True)
+
+    def __hash__(self):
+        raise Unsupported("hash(SEnum)")
+
+    @property
+    def value(self):
+        return "<sym-enum>"
+
+    @property
+    def name(self):
+        return "<SYM>"
+
+    def __repr__(self):
+        return "<SEnum %s>" % self.cls.__name__
+
+    __str__ = __repr__
+
+    def __format__(self, spec):
+        return repr(self)
+
+
 def _same(a, b):
     if isinstance(a, int) and isinstance(b, int):
         return a == b
@@ -970,6 +1052,20 @@ class Ctx:
             self.solver.add(v <= int(Fraction(hi) * den))
         return SReal(v, den)
 
+    def enum(self, name, cls):
+        """a symbolic member of an Enum class"""
+        members = list(cls)
+        if self.mode == "concrete":
+            i = int(self.values.get(name, 0))
+            self.inputs[name] = i
+            self.kinds[name] = "enum"
+            return members[i if 0 <= i < len(members) else 0]
+        v = z3.Int(name)
+        self.inputs[name] = v
+        self.kinds[name] = "enum"
+        self.solver.add(v >= 0, v < len(members))
+        return SEnum(v, cls)
+
     def fresh_int(self, base, lo=None, hi=None):
         self.nfresh += 1
         return self.int(f"{base}#{self.nfresh}", lo, hi)
@@ -1080,6 +1176,8 @@ def eval_obs(value, zmodel):
         return _model_value(zmodel, value.t)
     if isinstance(value, SBool):
         return _model_value(zmodel, value.t)
+    if isinstance(value, SEnum):
+        return value.members[_model_value(zmodel, value.t)].name
     if isinstance(value, SReal):
         n = value.num if isinstance(value.num, int) else _model_value(zmodel, value.num)
         d = value.den if isinstance(value.den, int) else _model_value(zmodel, value.den)
